@@ -187,7 +187,10 @@ func (c19) Gen(seed uint64, tier string) *Scenario {
 		sc.Files = append(sc.Files, FileSpec{Name: name, B64: base64.StdEncoding.EncodeToString(data)})
 	}
 	sc.Files = append(sc.Files, FileSpec{Name: "other.csv", Content: "k,v\n1,one\n2,two\n"})
-	switch r.Intn(10) {
+	switch r.Intn(11) {
+	case 10:
+		// an existing table "created" again: the statement loads it to compare the columns
+		m.Stmts = []string{"CREATE TABLE IF NOT EXISTS other (k, v);", fmt.Sprintf("SELECT COUNT(*) FROM %s;", src), "CREATE TABLE IF NOT EXISTS `other.csv` (k, v);", "COMMIT;"}
 	case 8:
 		// the same file through the table cache and through an inline table function
 		if m.Source == "file" {
@@ -415,6 +418,16 @@ func (c19) Eval(t *testing.T, c *Case, dec func(int) *Decider) *Outcome {
 			o.Stats.probe("real-process-run")
 		}
 	}
+	// syscall-level fault enumeration of the real binary
+	if bin := os.Getenv("VERIF_CSVQ_BIN"); bin != "" && (meta.Fault == "none" || meta.Fault == "stdout") && len(o.Violations) == 0 && straceOK() {
+		p, maxRuns := 0.04, 60
+		if c.Tier == "thorough" {
+			p, maxRuns = 0.15, 150
+		}
+		if Sub(c.Seed, "inject-pick").Bool(p) {
+			injectTier(o, bin, c, sc, &meta, maxRuns)
+		}
+	}
 	o.Sample = map[string]interface{}{"seed": c.Seed, "format": meta.Format, "source": meta.Source, "encoding": meta.Encoding, "truncated_at": meta.Trunc, "flags": meta.Flags,
 		"statements": meta.Stmts, "fault": meta.Fault, "cancels": sc.Cancels, "faults": sc.Faults, "rm_repo_at": sc.RmRepoAt, "exit": res.Procs[0].ExitCode, "err": firstLine(res.Procs[0].ErrText)}
 	return o
@@ -512,4 +525,147 @@ func realRun(bin string, sc *Scenario, meta *c19Meta) (int, string, error) {
 		_ = cmd.Process.Kill()
 		return 0, stderr.String(), fmt.Errorf("the real binary did not terminate within 15 s (args %v)", args)
 	}
+}
+
+// ---------------------------------------------------------------------------
+// syscall-level fault enumeration of the REAL binary (independent of the hooks):
+// strace makes the n-th system call of a class fail with an errno, for n = 1,
+// 2, ... until the process makes fewer calls of that class. Whatever fails,
+// csvq must end with a documented code and without an internal error.
+
+var injectClasses = []string{
+	"openat:ENOENT", "openat:EMFILE", "openat:EACCES", "newfstatat,stat,lstat:EACCES", "fstat:EIO", "read,pread64:EIO",
+	"write,pwrite64:ENOSPC", "ftruncate:EIO", "lseek:EIO", "rename,renameat,renameat2:EACCES", "unlink,unlinkat:EACCES",
+	"flock:ENOLCK", "getcwd:ENOENT", "getdents64:EIO", "close:EIO", "mkdir,mkdirat:EACCES",
+}
+
+type injectResult struct {
+	code     int
+	stderr   string
+	injected bool
+	hang     bool
+}
+
+func straceInject(bin string, sc *Scenario, meta *c19Meta, class, errno string, n int, rel bool) (*injectResult, error) {
+	setupBase()
+	dir, err := os.MkdirTemp(BaseDir, "inject-")
+	if err != nil {
+		return nil, err
+	}
+	defer os.RemoveAll(dir)
+	if err := writeFiles(dir, sc.Files); err != nil {
+		return nil, err
+	}
+	logf := dir + ".strace"
+	defer os.Remove(logf)
+	args := []string{"-f", "-o", logf, "-e", "trace=" + class, "-e", fmt.Sprintf("inject=%s:error=%s:when=%d", class, errno, n), bin}
+	if !rel {
+		args = append(args, "--repository", dir)
+	}
+	args = append(args, "--cpu", "1", "--format", "CSV", "--wait-timeout", "0.3")
+	if meta.Fault != "stdout" {
+		args = append(args, "--quiet")
+	}
+	var names []string
+	for fn := range meta.Flags {
+		names = append(names, fn)
+	}
+	sort.Strings(names)
+	for _, fn := range names {
+		v := meta.Flags[fn]
+		if v == "true" {
+			args = append(args, flagToCLI[fn])
+		} else if v != "false" {
+			args = append(args, flagToCLI[fn], v)
+		}
+	}
+	args = append(args, strings.Join(meta.Stmts, " "))
+	cmd := exec.Command("strace", args...)
+	cmd.Dir = filepath.Join(BaseDir, "cwd")
+	if rel {
+		cmd.Dir = dir
+	}
+	// without PWD the Go runtime asks the kernel for the working directory
+	for _, e := range os.Environ() {
+		if !strings.HasPrefix(e, "PWD=") {
+			cmd.Env = append(cmd.Env, e)
+		}
+	}
+	cmd.Env = append(cmd.Env, "GOMAXPROCS=1")
+	var stderr bytes.Buffer
+	cmd.Stderr = &stderr
+	if sc.Procs[0].HasStdin {
+		cmd.Stdin = bytes.NewReader(sc.Procs[0].StdinBytes())
+	}
+	done := make(chan error, 1)
+	if err := cmd.Start(); err != nil {
+		return nil, err
+	}
+	go func() { done <- cmd.Wait() }()
+	res := &injectResult{}
+	select {
+	case err := <-done:
+		if ee, ok := err.(*exec.ExitError); ok {
+			res.code = ee.ExitCode()
+		} else if err != nil {
+			return nil, err
+		}
+	case <-time.After(30 * time.Second):
+		_ = cmd.Process.Kill()
+		<-done
+		res.hang = true
+	}
+	res.stderr = stderr.String()
+	if b, err := os.ReadFile(logf); err == nil {
+		res.injected = bytes.Contains(b, []byte("(INJECTED)"))
+	}
+	return res, nil
+}
+
+// injectTier enumerates syscall faults for one scenario. Returns the number of
+// runs in which a fault was actually injected.
+func injectTier(o *Outcome, bin string, c *Case, sc *Scenario, meta *c19Meta, maxRuns int) {
+	const prop = "C19"
+	r := Sub(c.Seed, "inject-tier")
+	rel := r.Bool(0.5)
+	order := r.Perm(len(injectClasses))
+	runs := 0
+	for _, ci := range order {
+		f := strings.SplitN(injectClasses[ci], ":", 2)
+		for n := 1; n <= 25 && runs < maxRuns; n++ {
+			res, err := straceInject(bin, sc, meta, f[0], f[1], n, rel)
+			runs++
+			o.RealProc++
+			if err != nil {
+				o.Infra = append(o.Infra, "strace run failed: "+err.Error())
+				return
+			}
+			if !res.injected && !res.hang {
+				break
+			}
+			o.Stats.fault("syscall:" + f[0] + ":" + f[1])
+			label := fmt.Sprintf("REAL csvq with the %d-th %s failing with %s (relative repository: %v)", n, f[0], f[1], rel)
+			switch {
+			case res.hang:
+				o.viol(prop, "never-hangs", "real-hang:"+f[0], label+" did not end within 30 s: "+firstLine(res.stderr))
+			case !documentedCodes[res.code] && !(res.code >= 128 && res.code < 192):
+				o.viol(prop, "documented-error", fmt.Sprintf("real-exit-code-%d", res.code), label+fmt.Sprintf(" exited with undocumented code %d: %s", res.code, firstLine(res.stderr)))
+			}
+			for _, bad := range []string{"Fatal Error", "panic:", "goroutine ", "fatal error:"} {
+				if strings.Contains(res.stderr, bad) {
+					o.viol(prop, "no-internal-error", "real-stderr:"+bad, label+fmt.Sprintf(" printed %q: %s", bad, tailStr(res.stderr, 1200)))
+					break
+				}
+			}
+		}
+	}
+	o.Stats.probe("syscall-fault-scenarios")
+}
+
+func tailStr(s string, n int) string {
+	s = strings.TrimSpace(s)
+	if len(s) > n {
+		return s[:n]
+	}
+	return s
 }
